@@ -219,7 +219,7 @@ func (r *Run) Violation(key, what string, witness interface{}) {
 		return
 	}
 	r.replaySeq++
-	name := fmt.Sprintf("%s-%s-seed%d-%d.json", r.ID, r.Tier, r.Seed, r.replaySeq)
+	name := fmt.Sprintf("%s-%s-seed%d-p%d-%d.json", r.ID, r.Tier, r.Seed, os.Getpid(), r.replaySeq)
 	dir := filepath.Join(Root, "replays")
 	os.MkdirAll(dir, 0o755)
 	path := filepath.Join(dir, name)
@@ -406,4 +406,67 @@ func (r *Run) RestoreProgress() interface{} {
 	r.assumptions = p.Assumptions
 	r.inconclusive = p.Inconclusive
 	return p.CurrentCase
+}
+
+type partDoc struct {
+	P        progress
+	Viol     []violation
+	ViolKeys map[string]int
+	KnownHit map[string]int
+	Internal []string
+}
+
+// FinishPart writes everything this run observed to path, for a parent run to merge (no verdict lines, no evidence file).
+func (r *Run) FinishPart(path string) {
+	r.mu.Lock()
+	defer r.mu.Unlock()
+	p := progress{Evaluations: r.evaluations, Samples: r.samples, Counters: r.counters, Extra: r.extra,
+		Rule: r.rule, Assumptions: r.assumptions, Inconclusive: r.inconclusive, DistinctN: r.distinctN}
+	for k := range r.distinct {
+		p.Distinct = append(p.Distinct, k)
+	}
+	b, _ := json.Marshal(partDoc{P: p, Viol: r.viol, ViolKeys: r.violKeys, KnownHit: r.knownHit, Internal: r.internal})
+	os.MkdirAll(filepath.Dir(path), 0o755)
+	os.WriteFile(path, b, 0o644)
+}
+
+// MergePart merges a part written by FinishPart into this run; false if the file is missing or unreadable.
+func (r *Run) MergePart(path string) bool {
+	b, err := os.ReadFile(path)
+	if err != nil {
+		return false
+	}
+	var d partDoc
+	if json.Unmarshal(b, &d) != nil {
+		return false
+	}
+	r.mu.Lock()
+	defer r.mu.Unlock()
+	r.evaluations += d.P.Evaluations
+	r.distinctN += d.P.DistinctN
+	for _, k := range d.P.Distinct {
+		r.distinct[k] = struct{}{}
+	}
+	for _, s := range d.P.Samples {
+		if len(r.samples) < r.maxSamples+4 {
+			r.samples = append(r.samples, s)
+		}
+	}
+	for k, v := range d.P.Counters {
+		r.counters[k] += v
+	}
+	for k, v := range d.P.Extra {
+		r.extra[k] = v
+	}
+	r.assumptions = append(r.assumptions, d.P.Assumptions...)
+	r.inconclusive += d.P.Inconclusive
+	r.viol = append(r.viol, d.Viol...)
+	for k, v := range d.ViolKeys {
+		r.violKeys[k] += v
+	}
+	for k, v := range d.KnownHit {
+		r.knownHit[k] += v
+	}
+	r.internal = append(r.internal, d.Internal...)
+	return true
 }
